@@ -82,6 +82,7 @@ macro_rules! num_harness {
         #[kani::stub(core::arch::x86_64::_subborrow_u64, subborrow_stub)]
         #[kani::stub(<num_bigint::BigInt as core::ops::AddAssign<isize>>::add_assign, bigint_add_assign_isize_stub)]
         #[kani::stub(<num_bigint::BigInt as core::ops::MulAssign<isize>>::mul_assign, bigint_mul_assign_isize_stub)]
+        #[kani::stub(<num_bigint::BigInt as core::ops::Shl<u32>>::shl, bigint_shl_u32_stub)]
         fn $name() {
             tag_init();
             $body
@@ -298,14 +299,50 @@ num_harness!(num_even_odd_i, 4, {
     core::mem::forget(o);
 });
 
-// C07: no panic for any integer pair (the value is checked only where it is defined)
-num_harness!(num_arithmetic_shift_total, 4, {
+// num-bigint's `BigInt << u32` is not executed: the stub records its operands and returns a
+// marker that cannot fit a machine word (trusted: num-bigint shifts exactly).
+static mut SHL_SEEN: Option<(i128, u32)> = None;
+fn bigint_shl_u32_stub(this: BigInt, s: u32) -> BigInt {
+    unsafe { SHL_SEEN = Some((this.to_i128().unwrap_or(0), s)) };
+    core::mem::forget(this);
+    BigInt::from(i128::MAX)
+}
+
+// C07 + C10: for EVERY pair of machine integers arithmetic-shift neither panics nor drops bits:
+// the result is n * 2^m exactly (floor for negative m), as an IntV when it fits and through the
+// big-integer shift when it does not.
+num_harness!(num_arithmetic_shift_exact, 4, {
     let n: isize = kani::any();
     let m: isize = kani::any();
     let args = [IntV(n), IntV(m)];
     let r = arithmetic_shift(&args);
     kani::cover!(m >= 64, "shift amount beyond the word");
     kani::cover!(m == isize::MIN, "most negative shift amount");
+    kani::cover!(m > 0 && m < 64 && matches!(r, Ok(BigNum(_))), "in-word amount, bits would be lost: promoted");
+    kani::cover!(m == 63 && matches!(r, Ok(IntV(_))), "largest in-range left shift that fits");
+    let seen = unsafe { SHL_SEEN };
+    match &r {
+        Ok(IntV(v)) => {
+            vassert!(seen.is_none(), "arithmetic-shift took the big-integer path but returned a machine integer");
+            if m >= 0 {
+                let exact_fits = n == 0 || (m < 64 && fits((n as i128) << m));
+                vassert!(exact_fits, "arithmetic-shift returned a machine integer although bits were shifted out");
+                vassert!(n == 0 && *v == 0 || (*v as i128) == (n as i128) << m, "left shift differs from n * 2^m");
+            } else {
+                let k = if m <= -127 { 127 } else { -m };
+                vassert!((*v as i128) == (n as i128) >> k, "right shift differs from floor(n / 2^-m)");
+            }
+        }
+        Ok(BigNum(_)) => {
+            vassert!(m >= 0 && n != 0, "big-integer result for a right shift or for zero");
+            vassert!(m >= 64 || !fits((n as i128) << m), "non-canonical: big-integer result for a value that fits");
+            vassert!(seen == Some((n as i128, m as u32)) && m <= u32::MAX as isize, "big-integer shift called with other operands than (n, m)");
+        }
+        Ok(_) => assert!(false, "arithmetic-shift returned a non-integer"),
+        Err(_) => {
+            vassert!(m > u32::MAX as isize && n != 0, "arithmetic-shift refused a shift it can represent");
+        }
+    }
     core::mem::forget(r);
 });
 
@@ -502,19 +539,6 @@ fn expt_negative_body(r: isize) {
 }
 num_harness!(num_expt_minus_3, 8, { expt_negative_body(-3) });
 num_harness!(num_expt_minus_2, 8, { expt_negative_body(-2) });
-
-// masked twin for the listed finding "arithmetic-shift does not check the shift amount":
-// with |m| < 64 the primitive must not panic
-num_harness!(num_arithmetic_shift_total__kf, 4, {
-    let n: isize = kani::any();
-    let m: isize = kani::any();
-    kani::assume(m > -64 && m < 64);
-    let args = [IntV(n), IntV(m)];
-    let r = arithmetic_shift(&args);
-    kani::cover!(m == 63, "largest in-range left shift");
-    kani::cover!(m == -63, "largest in-range right shift");
-    core::mem::forget(r);
-});
 
 // C07: a negative power whose magnitude overflows the machine word must not panic
 num_harness!(num_expt_minus_30_total, 8, {
